@@ -9,6 +9,7 @@
 
 #![allow(dead_code)]
 mod analysis;
+mod derived;
 mod desc;
 mod gen;
 mod harness;
@@ -112,6 +113,7 @@ fn main() {
                 "C18" => unicheck::run_c18(&opt),
                 "C09" => supplysim::run_c09(&opt),
                 "C10" => streams::run_c10(&opt),
+                "C12" => derived::run_c12(&opt),
                 other => {
                     eprintln!("HARNESS-ERROR: no check for property {}", other);
                     2
@@ -138,6 +140,7 @@ fn main() {
                 "uni-tight" => unicheck::replay_tight(path, &text),
                 "supply" => supplysim::replay_supply(path, &text),
                 "stream" => streams::replay_stream(path, &text),
+                "derived" => derived::replay_derived(path, &text),
                 other => {
                     eprintln!("HARNESS-ERROR: unknown replay engine '{}'", other);
                     2
